@@ -5,6 +5,7 @@ package pod_grouper
 
 import (
 	"context"
+	"sort"
 	"strconv"
 	"strings"
 
@@ -103,5 +104,7 @@ func formatLabelSelector(selector map[string]string) string {
 	for key, value := range selector {
 		pairs = append(pairs, key+"="+value)
 	}
+	// map iteration order is random: an unsorted argument would change the deployment on every reconcile
+	sort.Strings(pairs)
 	return strings.Join(pairs, ",")
 }
